@@ -563,6 +563,17 @@ func (r *rspec) build() RawXMLValue {
 	if r.out != nil {
 		out = r.out.value()
 	}
+	// through the exported constructors where they can make the value
+	// (NewRawXMLElement = Raw (Some (TStart n a)) cs None in the model,
+	// EncodeRawXMLElement = Raw None [] (Some out))
+	if st, ok := r.tok.(xml.StartElement); ok && out == nil {
+		return *verifhook.NewRawXMLElement(st.Name, st.Attr, children)
+	}
+	if r.tok == nil && out != nil && len(children) == 0 {
+		if v, err := verifhook.EncodeRawXMLElement(out); err == nil {
+			return *v
+		}
+	}
 	return verifhook.VerifNewRaw(r.tok, children, out)
 }
 
